@@ -366,6 +366,9 @@ pub enum WOp {
     Buf(usize, usize),
     /// io::Write::write through a Writer wrapped around the root (C12)
     WriterWrite(usize),
+    /// io::Write::write_vectored with two slices of these sizes (any prefix of the concatenation of at least the first
+    /// non-empty slice's share of the room is a correct answer)
+    WriterWriteV(usize, usize),
     /// root must be a Limit
     SetLimit(usize),
     /// the raw BufMut protocol in contract: chunk_mut(), fill min(k, chunk) bytes through the safe
@@ -456,6 +459,7 @@ fn apply(t: &mut Sink, m: &mut SM, op: &WOp, seq_no: usize, stats: &mut Stats) -
         WOp::Dismantle | WOp::PokeInner => return Ok(false),
         WOp::Buf(_, k) => ("put(Buf)".into(), payload(*k, 0x41 + seq_no as u8 * 16)),
         WOp::WriterWrite(k) => ("Writer::write".into(), payload(*k, 0x61 + seq_no as u8 * 16)),
+        WOp::WriterWriteV(a, b) => ("Writer::write_vectored".into(), payload(*a + *b, 0x61 + seq_no as u8 * 16)),
         WOp::ChunkWrite(k) => ("chunk_mut+advance_mut".into(), payload((*k).max(1), 0x81 + seq_no as u8 * 16)),
         WOp::UninitMisuse(_) => ("UninitSlice misuse".into(), vec![]),
         WOp::SetLimit(l) => {
@@ -631,6 +635,26 @@ fn apply(t: &mut Sink, m: &mut SM, op: &WOp, seq_no: usize, stats: &mut Stats) -
                 Err(_) => return Err(f12("writer-panic", format!("Writer::write({} bytes) with room for {} panicked", bytes.len(), rem))),
             }
         }
+        WOp::WriterWriteV(a, _b) => {
+            let (x, y) = bytes.split_at(*a);
+            let first_nonempty = if !x.is_empty() { x.len() } else { y.len() };
+            let res = catch_unwind(AssertUnwindSafe(|| {
+                let mut w: Writer<&mut Sink> = (&mut *t).writer();
+                let n = std::io::Write::write_vectored(&mut w, &[std::io::IoSlice::new(x), std::io::IoSlice::new(y)]);
+                let fl = w.flush();
+                (n, fl.is_ok())
+            }));
+            match res {
+                Ok((Ok(n), true)) if n <= bytes.len().min(rem) && n >= first_nonempty.min(rem) => {
+                    m.write(&bytes[..n]);
+                    return Ok(true);
+                }
+                Ok((other, fl)) => {
+                    return Err(f12("writer-vectored-count", format!("Writer::write_vectored([{} bytes, {} bytes]) with room for {} returned {:?} (flush ok: {}), want Ok(n) with {} <= n <= {}", x.len(), y.len(), rem, other.map_err(|e| e.to_string()), fl, first_nonempty.min(rem), bytes.len().min(rem))))
+                }
+                Err(_) => return Err(f12("writer-vectored-panic", format!("Writer::write_vectored([{} bytes, {} bytes]) with room for {} panicked", x.len(), y.len(), rem))),
+            }
+        }
         WOp::SetLimit(_) | WOp::ChunkWrite(_) | WOp::UninitMisuse(_) | WOp::BufUnder(_) | WOp::Dismantle | WOp::PokeInner => unreachable!(),
     };
     if !fits {
@@ -721,14 +745,14 @@ fn apply(t: &mut Sink, m: &mut SM, op: &WOp, seq_no: usize, stats: &mut Stats) -
     Ok(true)
 }
 
-pub fn run_sequence(spec: &SSpec, seq: &[WOp], parity_odd: bool, stats: &mut Stats, tracked: bool) -> Result<Option<(usize, usize, Option<usize>)>, Fail> {
+pub fn run_sequence(spec: &SSpec, seq: &[WOp], parity_odd: bool, stats: &mut Stats, tracked: bool) -> Result<Option<(usize, usize, Option<usize>, usize)>, Fail> {
     oracle::sys::set_crash_note(&format!("sink target={:?} writes={:?}", spec, seq));
     if tracked {
         oracle::begin_execution(parity_odd);
     }
     stats.execs += 1;
     *arena() = [GUARD; ARENA];
-    let res = oracle::subject(|| catch_unwind(AssertUnwindSafe(|| -> Result<Option<(usize, usize, Option<usize>)>, Fail> {
+    let res = oracle::subject(|| catch_unwind(AssertUnwindSafe(|| -> Result<Option<(usize, usize, Option<usize>, usize)>, Fail> {
         let mut b = Builder { next: 0 };
         let (mut t, mut m) = b.build(spec);
         observe(&mut t, &m)?;
@@ -758,7 +782,9 @@ pub fn run_sequence(spec: &SSpec, seq: &[WOp], parity_odd: bool, stats: &mut Sta
             other => other.rem(),
         };
         let lim = if let SM::Limit(_, l) = &m { Some(*l) } else { None };
-        Ok(Some((m.rem(), first, lim)))
+        // what the target hands out as its next chunk right now (a write one byte longer has to cross into a second chunk)
+        let chunk = if m.rem() > 0 { t.chunk_mut().len() } else { 0 };
+        Ok(Some((m.rem(), first, lim, chunk)))
     })));
     let res = match res {
         Ok(r) => r,
@@ -800,12 +826,26 @@ fn value_images(size: usize) -> Vec<Vec<u8>> {
     v
 }
 
-fn sized_ops(rem: usize, first: usize, with_writer: bool, lim: Option<usize>, level: usize) -> Vec<WOp> {
+fn sized_ops(rem: usize, first: usize, chunk: usize, with_writer: bool, lim: Option<usize>, level: usize) -> Vec<WOp> {
     let cap = |x: usize| x.min(24);
     let mut ks = vec![0usize, 1, 2, 3, cap(first), cap(first) + 1, cap(rem), cap(rem) + 1, cap(first).saturating_sub(1)];
+    if chunk < 24 {
+        ks.push(chunk + 1);
+    }
     ks.sort();
     ks.dedup();
     let mut v = vec![];
+    if level == 0 {
+        // counts around a 256-byte block, where the target has the room (growable targets)
+        for k in [255usize, 256, 257, 512] {
+            if k <= rem {
+                v.push(WOp::Bytes(0xB7, k));
+                if k != 257 {
+                    v.push(WOp::Slice(k));
+                }
+            }
+        }
+    }
     for &k in &ks {
         v.push(WOp::Slice(k));
         v.push(WOp::Bytes(0xB7, k));
@@ -819,6 +859,14 @@ fn sized_ops(rem: usize, first: usize, with_writer: bool, lim: Option<usize>, le
         }
         if with_writer {
             v.push(WOp::WriterWrite(k));
+        }
+    }
+    if with_writer {
+        for (a, b) in [(1usize, 2usize), (0, 3), (cap(rem), 1), (cap(rem).saturating_sub(1), 2), (cap(first), 2), (2, 0)] {
+            let op = WOp::WriterWriteV(a, b);
+            if !v.contains(&op) {
+                v.push(op);
+            }
         }
     }
     if rem > 0 {
@@ -932,6 +980,13 @@ pub fn targets(rich: bool) -> Vec<SSpec> {
             out.push(b);
         }
     }
+    // Limit over growable buffers with one spare byte (a write of two bytes crosses into a second chunk of the inner buffer)
+    for l in [2usize, 5] {
+        out.push(SSpec::Limit(Box::new(SSpec::Vec(0, 1)), l));
+        out.push(SSpec::Limit(Box::new(SSpec::BytesMut(0, 0, 1)), l));
+        out.push(SSpec::Limit(Box::new(SSpec::Limit(Box::new(SSpec::Vec(1, 1)), l + 1)), l));
+        out.push(SSpec::Limit(Box::new(SSpec::Chain(Box::new(SSpec::Slice(1)), Box::new(SSpec::Slice(8)))), l));
+    }
     // growable first half: the second half must never be written
     out.push(SSpec::Chain(Box::new(SSpec::Vec(0, 2)), Box::new(SSpec::Slice(8))));
     out.push(SSpec::Chain(Box::new(SSpec::BytesMut(0, 1, 0)), Box::new(SSpec::Slice(8))));
@@ -957,7 +1012,7 @@ pub fn run(tier: &str, parity_odd: bool, shard: usize, nshards: usize, prop: &st
             for op in typed.iter().step_by(37) {
                 let _ = run_sequence(spec, &[op.clone()], parity_odd, &mut ws, false);
             }
-            for op in sized_ops(3, 1, true, Some(2), 0) {
+            for op in sized_ops(3, 1, 1, true, Some(2), 0) {
                 let _ = run_sequence(spec, &[op], parity_odd, &mut ws, false);
             }
         }
@@ -980,7 +1035,7 @@ pub fn run(tier: &str, parity_odd: bool, shard: usize, nshards: usize, prop: &st
         while let Some(seq) = stack.pop() {
             seqs += 1;
             match run_sequence(spec, &seq, parity_odd, &mut stats, true) {
-                Ok(Some((rem, first, lim))) => {
+                Ok(Some((rem, first, lim, chunk))) => {
                     if seq.len() < depth {
                         // typed table: from the initial state and (thorough) after one short positioning write
                         let after_typed = seq.iter().any(|o| matches!(o, WOp::Fixed(..) | WOp::Var(..)));
@@ -994,8 +1049,11 @@ pub fn run(tier: &str, parity_odd: bool, shard: usize, nshards: usize, prop: &st
                         }
                         // after a typed write: one more sized write (only if the typed write came first)
                         if !after_typed || seq.len() == 1 {
-                            for op in sized_ops(rem, first, with_writer, lim, seq.len()) {
-                                if prop == "C12" && !matches!(op, WOp::WriterWrite(_) | WOp::SetLimit(_) | WOp::Slice(_)) {
+                            for op in sized_ops(rem, first, chunk, with_writer, lim, seq.len()) {
+                                // C12 (write side): the Writer and Limit operations, plain writes for positioning, and put_bytes where it has to
+                                // cross a chunk boundary (an adapter that keeps its own count must see every byte that went through)
+                                let crossing = matches!(op, WOp::Bytes(_, k) if k <= rem && k > chunk && k <= 24);
+                                if prop == "C12" && !(matches!(op, WOp::WriterWrite(_) | WOp::WriterWriteV(..) | WOp::SetLimit(_) | WOp::Slice(_)) || crossing) {
                                     continue;
                                 }
                                 if after_typed && !matches!(op, WOp::Slice(_)) {
